@@ -2909,14 +2909,17 @@ def _block_defs(fn: ast.FunctionDef):
     return out
 
 
-def reaching_assign(fn: ast.FunctionDef, at: ast.stmt, name: str, pos=None):
-    """the last plain assignment to `name` that textually precedes `at` in its own statement list or an enclosing one"""
+def reaching_assign(fn: ast.FunctionDef, at: ast.stmt, name: str, pos=None, aug: bool = False):
+    """the last plain assignment to `name` that textually precedes `at` in its own statement list or an enclosing one
+    (with `aug`, also an augmented assignment `name op= e`)"""
     pos = pos or _block_defs(fn)
     cur = at
     while cur is not None and id(cur) in pos:
         stmts, i, up = pos[id(cur)]
         for s in reversed(stmts[:i]):
             if isinstance(s, ast.Assign) and any(name in _target_names(t) for t in s.targets):
+                return s
+            if aug and isinstance(s, ast.AugAssign) and isinstance(s.target, ast.Name) and s.target.id == name:
                 return s
             if any(isinstance(x, (ast.Assign, ast.AugAssign)) and name in (set().union(*[_target_names(t) for t in x.targets]) if isinstance(x, ast.Assign) else _target_names(x.target)) for x in ast.walk(s)):
                 return None  # defined inside a nested block: no single reaching definition
@@ -2954,9 +2957,12 @@ def resolve_reaching(fn: ast.FunctionDef, e: ast.expr, at: ast.stmt, keep=(), pa
                 lost = ast.Name(id="__unresolved__", ctx=ast.Load()) if (n.id in tainted or not keep) else n
                 if d <= 0:
                     return lost
-                st = reaching_assign(fn, at_, n.id, pos)
+                st = reaching_assign(fn, at_, n.id, pos, aug=True)
                 if st is None and n.id in all_params and not _assigned_before(fn, at_, n.id, pos):
                     return n  # a parameter that still holds the caller's value here
+                if isinstance(st, ast.AugAssign):
+                    # x op= e  is  x = x op e  with the x of before
+                    return go(ast.BinOp(left=ast.Name(id=n.id, ctx=ast.Load()), op=copy.deepcopy(st.op), right=copy.deepcopy(st.value)), st, d - 1)
                 if st is None or len(st.targets) != 1 or not isinstance(st.targets[0], ast.Name):
                     return lost
                 return go(copy.deepcopy(st.value), st, d - 1)
@@ -3695,4 +3701,40 @@ def np_scalar(r: R, chk, quals: List[str], rule="NP-SCALAR", floor: int = 1):
                    detail="" if not raw else f"{q}: `{seg(c, 40)}` receives an element of a numpy array as it is: with cls = Fraction the fixed-width integer stays inside the Fraction, and the first comparison with a float tolerance overflows (OverflowError) — the generator fails for cls = Fraction on every draw, where exact Fraction knots are promised",
                    func=q, construct=f"numpy scalar handed to {c.func.id}")
     chk.floor(rule, "conversions to the caller's number class in the generators", n, floor)
+    return n
+
+
+
+# ---------------------------------------------------------------------------------------------------------
+# SCALE-REACHES: a function that divides by the length of the parameter interval hands back nothing that skipped the division
+def scale_reaches(r: R, chk, quals: List[str], rule="SCALE-REACHES", floor: int = 1):
+    """d/du of a curve over [a, b] carries the factor 1 / (b - a).  In a derivative helper that divides by a difference of knots,
+    every returned matrix has to be computed from the divided value: a second return that still uses the matrix of before the
+    division gives the derivative with respect to the reference parameter — right on [0, 1], wrong on every other interval."""
+    n = 0
+    for q in quals:
+        fi = r.prog.func(q)
+        fn = fi.node
+        kv = [p for p in fi.params if "knot" in p.lower()]
+
+        def knot_diff(e):
+            return isinstance(e, ast.BinOp) and isinstance(e.op, ast.Sub) and all(isinstance(x, ast.Subscript) and isinstance(x.value, ast.Name) and x.value.id in kv for x in (e.left, e.right))
+
+        def scaled(e):
+            return any(isinstance(b, ast.BinOp) and isinstance(b.op, ast.Div) and any(knot_diff(x) for x in ast.walk(b.right)) for b in ast.walk(e))
+
+        divides = any((isinstance(a, ast.AugAssign) and isinstance(a.op, ast.Div) and any(knot_diff(x) for x in ast.walk(a.value))) or (isinstance(a, ast.BinOp) and isinstance(a.op, ast.Div) and any(knot_diff(x) for x in ast.walk(a.right))) for a in ast.walk(fn))
+        if not divides:
+            continue
+        pos = _block_defs(fn)
+        for ret in ast.walk(fn):
+            if not (isinstance(ret, ast.Return) and ret.value is not None):
+                continue
+            n += 1
+            ex = resolve_reaching(fn, ret.value, ret, keep=tuple(kv), params=fi.params, pos=pos)
+            ok = scaled(ex)
+            chk.ob(rule, f"{q}: `{seg(ret, 40)}` is computed from the value divided by the knot difference", ok, loc=f"{fi.module}.py:{ret.lineno}",
+                   detail="" if ok else f"{q}: `{seg(ret, 50)}` does not depend on the division by the length of the parameter interval that the function performs elsewhere: this return hands back the derivative with respect to the reference parameter — correct on [0, 1] only, off by the factor 1 / (b - a) on every other interval (Newton steps of the projection too long by that factor)",
+                   func=q, construct="return bypasses the division by the interval length")
+    chk.floor(rule, "returns of derivative helpers that divide by a knot difference", n, floor)
     return n
